@@ -14,7 +14,7 @@ import string
 
 from ..irschema import Schema
 from ..pyfacts import Func, Repo, call_name, dotted_name, func_params, walk_no_nested_funcs
-from ..report import RuleResult
+from ..report import AnalysisError, RuleResult
 
 ROLE_PARAMS = {"source_file_name", "module_source_file", "file_name"}
 ERROR_CTORS = {"error.error", "error.warn", "error.note"}
@@ -245,3 +245,82 @@ def control(repo):
     b = strrole(r2, sch, mods)
     c = formatarity(r2, mods)
     return len(a.findings) == 1 and len(b.findings) == 1 and len(c.findings) == 1
+
+
+def tokenshape(repo, modules=None):
+    """R-TOKENSHAPE: the parser's token list holds real tokens and the end-of-input marker, which are different
+    namedtuples.  Code that reads `<parse error>.token.<field>` may only read fields both kinds have, unless
+    the access is guarded by hasattr()/isinstance()."""
+    res = RuleResult("R-TOKENSHAPE")
+    lr1 = repo.mod("compiler/front_end/lr1.py")
+    pt = repo.mod("compiler/util/parser_types.py")
+
+    def nt_fields(mod, name):
+        for n in ast.walk(mod.tree):
+            if isinstance(n, ast.Call) and (call_name(n) or "").endswith("namedtuple") and len(n.args) >= 2 \
+                    and isinstance(n.args[0], ast.Constant) and n.args[0].value == name:
+                f = n.args[1]
+                if isinstance(f, (ast.List, ast.Tuple)):
+                    return {e.value for e in f.elts if isinstance(e, ast.Constant)}
+                if isinstance(f, ast.Constant):
+                    return set(f.value.replace(",", " ").split())
+        return None
+
+    token_fields = nt_fields(pt, "Token")
+    # marker types appended to the token list inside the parse driver
+    parse = lr1.funcs.get("Parser.parse")
+    if parse is None or token_fields is None:
+        raise AnalysisError("lr1.Parser.parse / parser_types.Token not found")
+    markers = {}
+    for n in walk_no_nested_funcs(parse.node):
+        if isinstance(n, ast.Assign) and isinstance(n.targets[0], ast.Name) and n.targets[0].id == "tokens":
+            for c in ast.walk(n.value):
+                if isinstance(c, ast.Call) and isinstance(c.func, ast.Name) and c.func.id[:1].isupper():
+                    fs = nt_fields(lr1, c.func.id)
+                    if fs is not None:
+                        markers[c.func.id] = fs
+    if not markers:
+        raise AnalysisError("lr1.Parser.parse: end-of-input marker construction not found")
+    common = set(token_fields)
+    for fs in markers.values():
+        common &= fs
+    res.detail = {"token_fields": sorted(token_fields), "markers": {k: sorted(v) for k, v in markers.items()}, "common": sorted(common)}
+    for m in (modules or repo.compile_path_modules()):
+        for f in list(m.funcs.values()):
+            # names bound to `<x>.token`
+            aliases = set()
+            for n in walk_no_nested_funcs(f.node):
+                if isinstance(n, ast.Assign) and isinstance(n.value, ast.Attribute) and n.value.attr == "token" \
+                        and isinstance(n.targets[0], ast.Name):
+                    aliases.add(n.targets[0].id)
+            for n in walk_no_nested_funcs(f.node):
+                if not isinstance(n, ast.Attribute):
+                    continue
+                base = n.value
+                is_tok = (isinstance(base, ast.Attribute) and base.attr == "token" and "error" in ast.unparse(base.value).lower()) \
+                    or (isinstance(base, ast.Name) and base.id in aliases)
+                if not is_tok or n.attr.startswith("_"):
+                    continue
+                res.instances += 1
+                if n.attr in common:
+                    continue
+                # guarded by hasattr(<base>, "<attr>") / isinstance(<base>, ...) in an enclosing if
+                guarded = False
+                p = m.parent(n)
+                cur = n
+                while p is not None and p is not f.node:
+                    if isinstance(p, (ast.If, ast.IfExp)) and (cur in (p.body if isinstance(p.body, list) else [p.body])
+                                                                or any(cur is s or cur in ast.walk(s) for s in (p.body if isinstance(p.body, list) else [p.body]))):
+                        t = ast.unparse(p.test)
+                        if f"hasattr({ast.unparse(base)}" in t or f"isinstance({ast.unparse(base)}" in t:
+                            guarded = True
+                    cur = p
+                    p = m.parent(p)
+                if not guarded:
+                    res.add(f"{m.rel}|{f.qualname}|token.{n.attr}", f"{f.qualname} reads `.{n.attr}` of a parse error's token, but the "
+                            f"token can be the end-of-input marker ({', '.join(markers)}: fields {sorted(set().union(*markers.values()))}): "
+                            "a syntax error at the end of the file raises AttributeError instead of being reported",
+                            m.rel, n.lineno, f.qualname)
+    res.samples = [str(res.detail)]
+    res.analysed = [lr1.rel, "compiler/util/error.py"]
+    return res
